@@ -179,8 +179,13 @@ void h_run(void) {
 #if C19_VARIANT == 1
   map_tracking = 1;
 #endif
+  /* the caller's storage holds arbitrary bytes before fiber_context_init (the API does not ask for zeroed memory) */
+  static const unsigned char junk[] = {0x00, 0xA5, 0xFF, 0x01, 0x7F};
+  const unsigned char jb = junk[wl_pick(5)];
+  memset(&thr_ctx[0], jb, sizeof thr_ctx[0]);
+  memset(&thr_ctx[1], jb, sizeof thr_ctx[1]);
   for (int i = 0; i < nctx; i++) {
-    memset(&ctx[i], 0, sizeof ctx[i]);
+    memset(&ctx[i], jb, sizeof ctx[i]);
     if (fiber_context_init(&ctx[i], stack_size[i], ctx_entry_tramp, (void*)(uintptr_t)(0xA000 + i)) != FIBER_SUCCESS)
       sim_violation("C19-init-failed", "fiber_context_init(%zu) failed", stack_size[i]);
     if (ctx[i].ctx_stack_size < stack_size[i]) sim_violation("C19-stack-too-small", "asked %zu got %zu", stack_size[i], ctx[i].ctx_stack_size);
